@@ -41,6 +41,19 @@ macro_rules! vt_proof_avx2 {
 #[kani::proof]
 pub fn vt_build_anchor() {}
 
+/// Case-split on the first byte of a buffer and write the constant back, so that CBMC's symbolic
+/// execution sees a *concrete* type prefix inside each branch and does not unfold the recursive
+/// arms of `decode_key` (sound: the final `else` asserts that no other prefix occurs).
+#[macro_export]
+macro_rules! for_prefix {
+    ($buf:expr, [$($p:expr),+], $body:block) => {{
+        let p0 = $buf[0];
+        $( if p0 == $p { $buf[0] = $p; $body } else )+
+        { assert!(false, "role=unexpected_type_prefix"); }
+    }};
+}
+
+pub mod c26;
 pub mod c27;
 
 #[cfg(all(kani, test))]
